@@ -1018,8 +1018,10 @@ impl Simulator {
     fn set_pc(&mut self, addr_word: Word, st_check_mem: bool) -> Result<(), SimErr> {
         let addr = addr_word.get_if_init(self.flags.strict, SimErr::StrictJmpAddrUninit)?;
         if self.flags.strict && st_check_mem {
-            // Check next memory value is initialized:
-            if !self.read_mem(addr, self.default_mem_ctx())?.is_init() {
+            // Check next memory value is initialized.
+            // This only peeks at the memory array: the check must not raise access violations,
+            // trigger IO side effects, or be recorded as a memory access of the program.
+            if !self.mem[addr].is_init() {
                 return Err(SimErr::StrictPCNextUninit);
             }
         }
